@@ -67,14 +67,12 @@ impl Lexer {
         self.peek(0)
     }
 
-    /// Get the next character in the source.
+    /// Move on to the next character in the source.
     ///
-    /// This function will update the current character and the position
-    /// of the Lexer struct.
+    /// This function will update the position of the Lexer struct. The row
+    /// and column always describe the character at the current position.
     fn consume_char(&mut self) {
-        // Get the next character
-        if let Some(ch) = self.peek(1) {
-            // Update the position
+        if let Some(ch) = self.current() {
             if ch == '\n' {
                 self.row += 1;
                 self.col = 0;
@@ -82,8 +80,6 @@ impl Lexer {
                 self.col += 1;
             }
             self.pos += 1;
-        } else {
-            self.pos = self.source.len();
         }
     }
 
@@ -135,19 +131,17 @@ impl Lexer {
     /// Get a range from the current character.
     ///
     /// This function will return a range with the start and end position
-    /// being the current position of the lexer.
+    /// being the current position of the lexer. As for every other token,
+    /// the end position is the position of the last character.
     fn get_range(&self) -> Range {
-        let mut end = self.get_pos();
-        end.increment_column();
-        Range::new(self.get_pos(), end)
+        Range::new(self.get_pos(), self.get_pos())
     }
 
     /// Get the current position of the lexer.
     ///
     /// This function will return the current position of the lexer.
     fn get_pos(&self) -> Position {
-        let column = if self.col == 0 { 0 } else { self.col - 1 };
-        Position::new(self.row, column, self.pos)
+        Position::new(self.row, self.col, self.pos)
     }
 
     /// Lex a unicode escape code.
